@@ -18,11 +18,12 @@
 EXTENDS Journal
 
 Acc(bal, nonce, code, stor, size) ==
-    [ex |-> TRUE, bal |-> bal, nonce |-> nonce, code |-> code, stor |-> stor, size |-> size, dead |-> FALSE]
+    [ex |-> TRUE, bal |-> bal, nonce |-> nonce, code |-> code, stor |-> stor, size |-> size, dead |-> FALSE,
+     tomb |-> FALSE, cst |-> stor]
 Z1 == [s \in 1..1 |-> 0]
 Z2 == [s \in 1..2 |-> 0]
-None1 == [ex |-> FALSE, bal |-> 0, nonce |-> 0, code |-> 0, stor |-> Z1, size |-> 0, dead |-> FALSE]
-None2 == [ex |-> FALSE, bal |-> 0, nonce |-> 0, code |-> 0, stor |-> Z2, size |-> 0, dead |-> FALSE]
+None1 == [ex |-> FALSE, bal |-> 0, nonce |-> 0, code |-> 0, stor |-> Z1, size |-> 0, dead |-> FALSE, tomb |-> FALSE, cst |-> Z1]
+None2 == [ex |-> FALSE, bal |-> 0, nonce |-> 0, code |-> 0, stor |-> Z2, size |-> 0, dead |-> FALSE, tomb |-> FALSE, cst |-> Z2]
 
 \* universe "jt" of journaldrv (random journal-level traces)
 GenT == <<Acc(5, 1, 1, <<1, 2>>, 2), Acc(3, 2, 1, <<0, 1>>, 1), Acc(4, 0, 0, Z2, 0), None2>>
@@ -47,7 +48,11 @@ NewNone == <<>>
 XferNone == {}
 AllOps == {"addbalance", "subbalance", "setbalance", "setnonce", "setcode", "setstate", "settransient", "suicide",
            "createaccount", "addlog", "addrefund", "subrefund", "addpreimage", "aladdr", "alslot", "snapshot", "revert",
-           "push", "popok", "popsuicide", "popabort", "sstore", "tstore", "log", "xfer", "etx", "xcall", "claim"}
+           "push", "popok", "popsuicide", "popabort", "sstore", "tstore", "log", "xfer", "etx", "xcall", "claim", "txend"}
+\* journal-level traces: the StateDB interface only (a transaction boundary may then come at any time, see BoundaryOk)
+AllOpsJ == {"addbalance", "subbalance", "setbalance", "setnonce", "setcode", "setstate", "settransient", "suicide",
+            "createaccount", "addlog", "addrefund", "subrefund", "addpreimage", "aladdr", "alslot", "snapshot", "revert",
+            "txend", "blockend"}
 AnyVals == 0..255
 AnyAmts == 0..255
 
@@ -107,10 +112,11 @@ TraceReset ==
     /\ Is("tracereset")
     /\ st' = [acct |-> Genesis, refund |-> 0, logs |-> <<>>,
               alA |-> [a \in Addrs |-> FALSE], alS |-> [a \in Addrs |-> [s \in Slots |-> FALSE]],
-              tst |-> [a \in Addrs |-> ZeroStor], preim |-> [p \in 1..1 |-> FALSE]]
+              tst |-> [a \in Addrs |-> ZeroStor], preim |-> [p \in 1..1 |-> FALSE],
+              pend |-> [a \in Addrs |-> FALSE], trie |-> Genesis]
     /\ ev' = [etx |-> <<>>, ldh |-> <<>>, ldm |-> [a \in Addrs |-> FALSE], bdel |-> [a \in Addrs |-> FALSE]]
     /\ jr' = <<>> /\ revs' = <<>> /\ nextId' = 0 /\ saved' = <<>>
-    /\ cnt' = [mut |-> 0, snap |-> 0, created |-> 0, done |-> FALSE, failed |-> FALSE, csoog |-> FALSE]
+    /\ cnt' = Cnt0
     /\ step' = 0 /\ obs' = <<"init">> /\ hist' = <<>>
     /\ l' = l + 1 /\ skip' = FALSE /\ isaved' = <<>>
 
@@ -147,6 +153,8 @@ TraceNext ==
     \/ Is("etx")           /\ Step(Etx)
     \/ Is("xcall")         /\ Step(TopXCall(Ev.a, Ev.s = 1))
     \/ Is("claim")         /\ Step(Claim)
+    \/ Is("txend")         /\ Step(TxBoundary)
+    \/ Is("blockend")      /\ Step(BlockBoundary)
 
 TraceSpec == TraceInit /\ [][TraceNext]_tvars
 
